@@ -144,3 +144,57 @@ pub fn check_streams(expects: &[Expect], got: &Streams) -> Result<(), String> {
     }
     Ok(())
 }
+
+/// Ordering clause (C02/C04), judged on the raw log of a `run` execution with
+/// the recording writer: after a query handler succeeded, its response bytes
+/// (ending in a newline) and one flush must be seen before anything else
+/// happens; a command, a failed handler or an error produces no output.
+pub fn check_unit_order(log: &[Ev], is_query: &dyn Fn(u16) -> bool) -> Result<(), String> {
+    #[derive(PartialEq, Debug)]
+    enum St {
+        Idle,
+        /// query handler returned ok; bytes written so far
+        Resp(Vec<u8>),
+    }
+    let mut st = St::Idle;
+    for (i, e) in log.iter().enumerate() {
+        match e {
+            Ev::Exit { h, ok } => {
+                if st != St::Idle {
+                    return Err(format!("event {}: handler exit while a response was pending", i));
+                }
+                if *ok && is_query(*h) {
+                    st = St::Resp(Vec::new());
+                }
+            }
+            Ev::Write(b) => match &mut st {
+                St::Resp(buf) => buf.extend_from_slice(b),
+                St::Idle => return Err(format!("event {}: output \"{}\" although no query response is due", i, crate::ev::esc(b))),
+            },
+            Ev::Flush => match &st {
+                St::Resp(buf) => {
+                    if buf.last() != Some(&b'\n') {
+                        return Err(format!("event {}: flush before the response was terminated by a newline", i));
+                    }
+                    st = St::Idle;
+                }
+                St::Idle => return Err(format!("event {}: flush although no response is due", i)),
+            },
+            Ev::Enter { .. } | Ev::Error { .. } | Ev::Mark(_) | Ev::RunRet { .. } => {
+                if let St::Resp(buf) = &st {
+                    return Err(format!(
+                        "event {} ({}) before the response of the previous query was written and flushed (written so far: \"{}\")",
+                        i,
+                        e.show(),
+                        crate::ev::esc(buf)
+                    ));
+                }
+            }
+            _ => {}
+        }
+    }
+    if st != St::Idle {
+        return Err("log ends while a response is pending (no newline + flush)".into());
+    }
+    Ok(())
+}
